@@ -23,6 +23,7 @@ import (
 	"strconv"
 	"sync"
 	"testing"
+	"time"
 
 	"github.com/lni/dragonboat/v4/client"
 	"github.com/lni/dragonboat/v4/config"
@@ -462,6 +463,9 @@ func (s *rqSim) run(steps int) {
 	for s.step < steps {
 		if !closing && s.step >= closeAt {
 			closing = true
+			if s.nc && s.tid%4 == 1 {
+				s.commitRace()
+			}
 		}
 		if closing && s.rng.Intn(4) == 0 {
 			s.closeNext()
@@ -500,6 +504,72 @@ func (s *rqSim) run(steps int) {
 	}
 	s.emit(rqEv{Op: "Final"})
 	s.stress()
+}
+
+// commitRace: the commit worker reports a proposal committed (proposalShard.committed: look the request up,
+// then notify it) while the request expires, its client reads the Timeout and releases the object, and the
+// next proposal obtains the pooled object. The scheduling point between the lookup and the notification
+// is the verif gate of /repo (build tag verif); the other goroutine's steps run while the commit worker
+// stands there - or after it has gone on, when the lookup and the notification are one critical section.
+// The verdict is TLC's as for every other step: a Committed note must belong to the request that gets it.
+func (s *rqSim) commitRace() {
+	cid, series := uint64(2), uint64(1)
+	sess := &client.Session{ShardID: 1, ClientID: cid, SeriesID: series}
+	r, err := s.props.propose(sess, []byte{1}, 2)
+	ev := rqEv{Op: "Propose", Cid: cid, Series: series, To: 2, Err: errName(err)}
+	if err != nil {
+		s.emit(ev)
+		return
+	}
+	ev.Oid, ev.Rid = s.accept(r)
+	ev.Key = r.key
+	oid, key := ev.Oid, r.key
+	s.emit(ev)
+	ents := s.propQ.get(false)
+	keys := []uint64{}
+	for _, e := range ents {
+		keys = append(keys, e.Key)
+		s.entries = append(s.entries, rqEntry{e.Key, e.ClientID, e.SeriesID})
+	}
+	s.emit(rqEv{Op: "GetProposals", Keys: keys})
+	s.committedKeys[key] = true
+	s.emit(rqEv{Op: "Committed", Key: key, Cid: cid, Series: series})
+	done := make(chan struct{})
+	fired := false
+	verifGateFn = func(name string) {
+		if name != "proposalShard.committed" || fired {
+			return
+		}
+		fired = true
+		go func() {
+			defer close(done)
+			s.doTick(3)
+			s.props.gc()
+			s.emit(rqEv{Op: "GC"})
+			s.poll(oid)
+			s.release(oid)
+			sess2 := &client.Session{ShardID: 1, ClientID: 3, SeriesID: 2}
+			r2, err := s.props.propose(sess2, []byte{1}, 6)
+			ev := rqEv{Op: "Propose", Cid: 3, Series: 2, To: 6, Err: errName(err)}
+			if err == nil {
+				ev.Oid, ev.Rid = s.accept(r2)
+				ev.Key = r2.key
+			}
+			s.emit(ev)
+		}()
+		select {
+		case <-done:
+		case <-time.After(100 * time.Millisecond):
+		}
+	}
+	s.props.committed(cid, series, key)
+	verifGateFn = nil
+	if fired {
+		<-done
+	}
+	for _, id := range s.liveIDs() {
+		s.poll(id)
+	}
 }
 
 // stress: real goroutines. Proposers and readers call the client-facing entry points of fresh
